@@ -649,6 +649,13 @@ pub fn execute(ctx: &Ctx, trace: &Trace, opts: &ExecOpts) -> Outcome {
             Err(p) => {
                 o.parse = ParseClass::Panic;
                 staged_panicked = true;
+                if opts.c08 {
+                    o.violations.push(Violation {
+                        prop: "C08",
+                        class: format!("parse_panic@{}", p.loc),
+                        detail: format!("try_from_bits neither accepted nor rejected {} pixels with width {}: {}", px.len(), width, p.msg),
+                    });
+                }
                 o.violations.push(Violation {
                     prop: "C05",
                     class: format!("panic:try_from_bits@{}", p.loc),
@@ -1112,6 +1119,19 @@ fn c08_accepted(
                 });
                 return;
             }
+        }
+    }
+    // accepted => every finder, clock, alignment and fixed-corner module is as the standard says
+    // (the property's "so every ... module is checked"; the crate keeps the fixed-corner modules inside
+    // its matrix content, so re-rendering alone would not notice them)
+    if let Some(s) = catalogue::find_by_dims(h, width) {
+        let tpl = catalogue::fixed_template(s);
+        if let Some(i) = tpl.iter().zip(px.iter()).position(|(t, b)| matches!(t, Some(d) if d != b)) {
+            o.violations.push(Violation {
+                prop: "C08",
+                class: "accepted_with_deviating_fixed_module".into(),
+                detail: format!("{}: accepted although the fixed module at row {} col {} is {} (standard: {})", s.name, i / width, i % width, px[i], !px[i]),
+            });
         }
     }
     // accepted => re-rendering reproduces the array bit for bit
